@@ -261,6 +261,9 @@ what it then persists opens under the stored root key, so a later seal is unseal
 def stepHA (u : Unit) (fs : List String) : Unit × String :=
   match fs with
   | ["hatakeover", _what] => (u, "keyring:same|data:readable|reseal:unseals")
+  -- a ceremony pending on a node that steps down is gone when the node is active again: only shares of the CURRENT key
+  -- start a rotation (`C20.rotation_requires_quorum`), the shares handed out by the completed ceremony keep unsealing
+  | ["hastale"] => (u, "ceremony:dropped|verify:refused|k2:unseals")
   | _ => (u, "bad-op")
 
 def streams : List (String × Driver.Stream) :=
